@@ -953,15 +953,21 @@ Fixpoint ser_item (it : item) : list N :=
 Definition ser_merged (m : merged) : list N :=
   if m_err m then [999] else N.of_nat (length (m_out m)) :: flat_map ser_item (m_out m).
 
-(* one correspondence case: result bits
-   1 as-written model = implementation, 2 fixed model = implementation, then monitors of the as-written
-   run: 4 leak, 8 clsdecl, 16 non-typing import requested, 32 fresh class injected, 64 Generic base added,
-   128 error *)
+(* polynomial hash of a token stream (mod the Mersenne prime 2^61-1); the harness hashes the
+   implementation's token stream the same way, so a case file carries inputs only *)
+Definition hash_p : N := 2305843009213693951.
+Definition hash_b : N := 1000003.
+Definition hash_tokens (l : list N) : N :=
+  fold_left (fun h t => (h * hash_b + t + 1) mod hash_p) l 7.
+
+(* one correspondence case: (hash of the as-written model's output, hash of the fixed model's output,
+   monitor bits of the as-written run: 4 leak, 8 clsdecl, 16 non-typing import requested,
+   32 fresh class injected, 64 Generic base added, 128 error) *)
 Definition bit (b : bool) (w : N) : N := if b then w else 0.
-Definition check_case (c : list item * list item * list N) : N :=
-  let '(p, s, expected) := c in
+Definition check_case (c : list item * list item) : N * N * N :=
+  let '(p, s) := c in
   let ma := merge AsWritten p s in
   let mf := merge Fixed p s in
-  bit (list_eqb N.eqb (ser_merged ma) expected) 1 + bit (list_eqb N.eqb (ser_merged mf) expected) 2 +
-  bit (m_leak ma) 4 + bit (m_clsdecl ma) 8 + bit (negb (needs_typing_only ma)) 16 +
-  bit (negb (Nat.eqb (length (m_fresh ma)) 0)) 32 + bit (m_generic ma) 64 + bit (m_err ma) 128.
+  (hash_tokens (ser_merged ma), hash_tokens (ser_merged mf),
+   bit (m_leak ma) 4 + bit (m_clsdecl ma) 8 + bit (negb (needs_typing_only ma)) 16 +
+   bit (negb (Nat.eqb (length (m_fresh ma)) 0)) 32 + bit (m_generic ma) 64 + bit (m_err ma) 128).
